@@ -51,9 +51,14 @@ def build_base(kind):
 def oracle(case, ctx):
     discs = []
     n = case["n"]
-    vals = [v + ((i * 37) % 11) / 7.0 for i, v in enumerate(case["values"][:n])]
+    # series of any magnitude: scale-dependent losses of small series are tiny numbers, and
+    # the ranking must still follow them exactly
+    scale = case.get("scale", 1.0)
+    vals = [(v + ((i * 37) % 11) / 7.0) * scale for i, v in enumerate(case["values"][:n])]
+    if scale != 1.0:
+        ctx.label("scale_%g" % scale)
     y = gen.build_series(vals, case["start"], case["index_kind"])
-    y_new = gen.build_series([v * 1.01 + 0.3 for v in vals[:3]], case["start"] + n, case["index_kind"])
+    y_new = gen.build_series([v * 1.01 + 0.3 * scale for v in vals[:3]], case["start"] + n, case["index_kind"])
     metric = build_metric(case["metric"])
     gib = bool(metric.greater_is_better)
     grid = case["grid"]
@@ -210,6 +215,7 @@ def cases(draw):
         "metric": draw(st.sampled_from(["smape", "mape_asym", "mse", "ratio", "ratio"])),
         "refit": draw(st.sampled_from([True, True, False])),
         "strategy": draw(st.sampled_from(["refit", "refit", "update"])),
+        "scale": draw(st.sampled_from([1.0, 1.0, 1.0, 1e-4, 1e-3, 1e4])),
     }
 
 
